@@ -44,4 +44,21 @@ def closed (cs : List PClass) : Bool :=
   cs.all (fun c => (effRead cs cs.length c).all (fun k => (effSaved cs cs.length c).contains k) && !c.saveOpaque) &&
   (cs.map (·.name)).Nodup
 
+/-! ### a record model driven by the table -/
+
+/-- the params dict of an entity: key → value (values are opaque) -/
+abbrev Rec := List (String × Nat)
+
+def Rec.get? : Rec → String → Option Nat
+  | [], _ => none
+  | (a, v) :: r, k => if a = k then some v else Rec.get? r k
+
+/-- `_save_additional_params` of class `c` applied to an entity whose attributes are `attrs`: exactly the keys of the table -/
+def saveRec (cs : List PClass) (c : PClass) (attrs : String → Nat) : Rec :=
+  (effSaved cs cs.length c).map (fun k => (k, attrs k))
+
+/-- `_load` of class `c`: reads every key of the table with `[...]`; `none` is the `KeyError` -/
+def loadRec (cs : List PClass) (c : PClass) (r : Rec) : Option Rec :=
+  (effRead cs cs.length c).mapM (fun k => (r.get? k).map (fun v => (k, v)))
+
 end SFV.Persist
